@@ -593,7 +593,12 @@ func rulesC20(c *Ctx) {
 						if !ok || p.Src(ix.X) != "seen" || p.Src(ix.Index) != p.Src(x.Value) {
 							return false
 						}
-						br, ok := ifs.Body.List[len(ifs.Body.List)-1].(*ast.BranchStmt)
+						// the skip must be exactly `continue`: forgetting the history inside it (seen = nil)
+						// lets the next overlapping event through twice
+						if len(ifs.Body.List) != 1 {
+							return false
+						}
+						br, ok := ifs.Body.List[0].(*ast.BranchStmt)
 						return ok && br.Tok == token.CONTINUE
 					}) != nil
 					c.Check("C20.h", "live event filtered against history", x, filtered, "a live event is forwarded without the fact !seen[event]: an event present in both the history snapshot and the local channel is delivered twice")
